@@ -957,6 +957,19 @@ func (p *PubSub) processLoop(ctx context.Context) {
 					in.s.Conn().RemotePeer(), in.s.Protocol())
 			}
 		case msg := <-p.sendMsg:
+			// The message was checked against the blacklist before it entered the
+			// validation pipeline; its forwarder or author may have been blacklisted
+			// while it was being validated.
+			if p.blacklist.Contains(msg.ReceivedFrom) {
+				p.logger.Debug("dropping validated message from blacklisted peer", "peer", msg.ReceivedFrom)
+				p.tracer.RejectMessage(msg, RejectBlacklstedPeer)
+				continue
+			}
+			if p.blacklist.Contains(msg.GetFrom()) {
+				p.logger.Debug("dropping validated message from blacklisted source", "source", msg.GetFrom())
+				p.tracer.RejectMessage(msg, RejectBlacklistedSource)
+				continue
+			}
 			p.publishMessage(msg)
 
 		case batchAndOpts := <-p.sendMessageBatch:
